@@ -17,7 +17,7 @@ from __future__ import annotations
 
 import itertools
 import struct
-from typing import Any, Callable, Dict, Iterable, List, Optional, Sequence, Tuple
+from typing import Any, Dict, Iterable, List, Optional, Sequence, Tuple
 
 ANSWERS = ("V1", "V2", "NEG", "BAD")
 NRC = 0x31
